@@ -14,6 +14,7 @@ from harness import common as C
 from harness.common import cbytes, clist, cnat
 
 PID = "C13"
+KEY_SHARED = "llcm-shared-across-connection-handles"
 M2S, S2M = 1, 2
 MASK = 0xE3
 EXC = {"IndexError": 1, "UnboundLocalError": 2, "ValueError": 3, "error": 4, "MissingCryptographicMaterial": 5}
@@ -294,6 +295,134 @@ def gen_dec_raw(ctx, captures_air):
     return out
 
 
+
+# ----------------------------------------------------------------------------- the stack's encryption start procedure
+HANDLES = [1, 2, 42, 64]
+
+
+def rand_proc(rng, h, central):
+    ltk, mat = rand_material(rng, 5 if rng.random() < 0.8 else rng.randrange(2))
+    return {"central": central, "h": h, "key": ltk, "rand": rng.getrandbits(64) if rng.random() < 0.7 else 0,
+            "ediv": rng.getrandbits(16), "skdm": mat[0], "ivm": mat[1], "skds": mat[2], "ivs": mat[3]}
+
+
+def proc_events(p):
+    if p["central"]:
+        return [["reg", p["h"], p["key"]], ["start", p["h"], p["rand"], p["ediv"], p["skdm"], p["ivm"]],
+                ["encrsp", p["h"], p["skds"], p["ivs"]], ["startencreq", p["h"]]]
+    return [["reg", p["h"], p["key"]], ["encreq", p["h"], p["rand"], p["ediv"], p["skdm"], p["ivm"], p["skds"], p["ivs"]]]
+
+
+def gen_stack_cases(ctx):
+    rng, cases = ctx.rng, []
+    # (a) 1..3 procedures run one after the other, same / different handles, both roles
+    for i in range(240 if ctx.thorough else 40):
+        n = 1 + i % 3
+        role = [True, False, None][i % 3 if i % 7 else 2]      # central, peripheral, mixed
+        same = (i // 3) % 2 == 0
+        h0 = rng.choice(HANDLES)
+        procs, events = [], []
+        for _j in range(n):
+            h = h0 if same else rng.choice(HANDLES)
+            p = rand_proc(rng, h, role if role is not None else rng.random() < 0.5)
+            if same and rng.random() < 0.25 and procs:
+                p["key"] = procs[-1]["key"]                     # key refresh with the same LTK, new SKD/IV
+            events += proc_events(p)
+            p["at"] = len(events) - 1
+            procs.append(p)
+        cases.append({"kind": "sequential", "handles": HANDLES, "events": events, "procs": procs})
+    # (b) two central procedures on different handles whose PDUs interleave (known finding class)
+    for _ in range(12 if ctx.thorough else 3):
+        h1, h2 = rng.sample(HANDLES, 2)
+        p, q = rand_proc(rng, h1, True), rand_proc(rng, h2, True)
+        ep, eq = proc_events(p), proc_events(q)
+        events = [ep[0], eq[0], ep[1], eq[1], ep[2], eq[2], ep[3], eq[3]]
+        p["at"], q["at"] = 6, 7
+        cases.append({"kind": "interleaved", "handles": HANDLES, "events": events, "procs": [p, q]})
+    # (c) guards: no key, no manager yet, LL_ENC_RSP without LL_ENC_REQ, unknown handle, key withdrawn
+    k = rand_material(rng, 5)[0]
+    cases.append({"kind": "guards", "handles": [7], "procs": [],
+                  "events": [["startencreq", 7], ["start", 7, 1, 2, 3, 4], ["encrsp", 7, 1, 2], ["encreq", 7, 1, 2, 3, 4, 5, 6],
+                             ["reg", 7, k], ["encrsp", 7, 1, 2], ["startencreq", 9], ["encrsp", 9, 1, 2], ["encreq", 9, 1, 2, 3, 4, 5, 6],
+                             ["reg", 9, k], ["reg", 7, None], ["start", 7, 1, 2, 3, 4]]})
+    return cases
+
+
+STACK_EXC = {"AttributeError": "AttributeError", "error": "StructError", "ValueError": "ValueError", "IndexError": "IndexError"}
+
+
+def cev(e):
+    if e[0] == "reg":
+        return "EReg %d %s" % (e[1], "None" if e[2] is None else "(Some %s)" % cbytes(bytes.fromhex(e[2])))
+    name = {"start": "EStart", "encrsp": "EEncRsp", "startencreq": "EStartEncReq", "encreq": "EEncReq"}[e[0]]
+    return name + " " + " ".join("%d" % x for x in e[1:])
+
+
+def clout(o):
+    def on(x):
+        return "None" if x is None else "(Some %d)" % x
+    if o["k"] == "none":
+        return "LNone"
+    if o["k"] == "reject":
+        return "LReject"
+    if o["k"] == "setenc":
+        c = o["call"]
+        return "LSetEnc %d %s %s %s %s %s" % (c["conn"], cbytes(bytes.fromhex(c["ll_key"])), cbytes(bytes.fromhex(c["ll_iv"])),
+                                             cbytes(bytes.fromhex(c["key"])), on(c["rand"]), on(c["ediv"]))
+    if o["k"] == "exc" and o["d"] in STACK_EXC:
+        return "LRaise " + STACK_EXC[o["d"]]
+    return "LRaise MissingCryptographicMaterial"      # never produced by the model: forces a disagreement
+
+
+def stack_term(c, res):
+    return "(%s, %s, %s)" % (clist(["%d" % h for h in c["handles"]]), clist([cev(e) for e in c["events"]]),
+                             clist([clout(o) for o in res["out"]]))
+
+
+def judge_stack(ctx, c, res):
+    """the PHY must be given e(LTK, SKDs||SKDm), IVm||IVs, LTK, rand, ediv of the CURRENT procedure,
+    exactly once per procedure; e() recomputed independently by the driver (Cryptodome ECB)"""
+    n = 0
+    case = {"op": "stack", "kind": c["kind"], "handles": c["handles"], "events": c["events"],
+            "procs": c["procs"]}
+    if "exc" in res:
+        return ctx.violation("driving the link layer raised " + res["exc"], case)
+    out = res["out"]
+    for p, ref in zip(c["procs"], res["ref"]):
+        want = {"conn": p["h"], "enabled": True, "ll_key": ref["ll_key"], "ll_iv": ref["ll_iv"], "key": p["key"],
+                "rand": p["rand"], "ediv": p["ediv"]}
+        o = out[p["at"]]
+        got = o.get("call") if o["k"] == "setenc" else None
+        if got != want:
+            # class of the known finding: the manager in use was created by a procedure on ANOTHER handle
+            last = None
+            for e in c["events"][:p["at"]] if p["central"] else []:
+                if e[0] in ("encrsp", "encreq"):
+                    last = e[1]
+            key = KEY_SHARED if (last is not None and last != p["h"]) else None
+            n += ctx.violation("session key / IV / LTK handed to the PHY is not e(LTK, SKDs||SKDm), IVm||IVs of the current encryption procedure",
+                               dict(case, failing_proc=c["procs"].index(p)), key=key, expected=want, observed=o)
+    ats = {p["at"] for p in c["procs"]}
+    if c["kind"] in ("sequential", "interleaved"):
+        extra = [i for i, o in enumerate(out) if o["k"] in ("setenc", "multi") and i not in ats]
+        if extra or any(o["k"] == "multi" for o in out):
+            n += ctx.violation("set_encryption called outside / more than once in a procedure", case, observed=[out[i] for i in extra][:3])
+    return n
+
+
+def judge_roles(ctx, rng_cases, results):
+    """both sides of one procedure (central LinkLayer, peripheral LinkLayer) hand the same key/IV to their PHY"""
+    n = 0
+    for (cc, pc), (rc, rp) in zip(rng_cases, results):
+        a = rc["out"][cc["procs"][0]["at"]] if "out" in rc else None
+        b = rp["out"][pc["procs"][0]["at"]] if "out" in rp else None
+        ka = (a["call"]["ll_key"], a["call"]["ll_iv"]) if a and a["k"] == "setenc" else None
+        kb = (b["call"]["ll_key"], b["call"]["ll_iv"]) if b and b["k"] == "setenc" else None
+        if ka is None or ka != kb:
+            n += ctx.violation("central and peripheral side derive different session material", {"op": "stack", **{k: cc[k] for k in ("kind", "handles", "events", "procs")}},
+                               expected=ka, observed=kb)
+    return n
+
 # ----------------------------------------------------------------------------- Coq terms
 def cdir(d):
     return "M2S" if d == M2S else "S2M"
@@ -523,6 +652,7 @@ def run(ctx):
         "Lib/Aes.v (Gallina AES-128, FIPS-197 vectors), Lib/Ccm.v (RFC 3610 vector #1, Core-spec M=4 L=2 vector): used only to evaluate the model in the correspondence",
         "hand-written model coq/theories/C13/Model.v tied to whad/ble/crypto.py by the bit-for-bit correspondence of this run (ciphertext+MIC, (plaintext, success), counters after every operation)",
         "Cryptodome AES/CCM is the implementation's primitive; its outputs are compared with the Gallina CCM on every case",
+        "LinkLayer of the BLE stack driven through a Sandbox mock PHY (control PDUs as scapy packets, randint of whad.ble.stack.llm replaced by the case's SKD/IV draws); observed: the arguments of set_encryption",
         "scapy BTLE/BTLE_DATA dissection and rebuild in LinkLayerDecryptor (packet -> bytes[4:-3], BTLE_DATA(plaintext).len -= 4), observed through bytes()",
         "the reference encryptor of the capture stream (harness/impl/C13.py ref_encrypt, written from the Bluetooth Core specification; reproduces the specification's sample data)",
     ]
@@ -541,11 +671,25 @@ def run(ctx):
     sweeps, pairs, links = gen_sweeps(ctx), gen_pairs(ctx), gen_links(ctx)
     captures = [w["case"] for w in corpus if w.get("op") == "capture"] + gen_captures(ctx)
     corpus_dec = [w["case"] for w in corpus if w.get("op") == "dec"]
+    stack_cases = [w["case"] for w in corpus if w.get("op") == "stack"] + gen_stack_cases(ctx)
+    role_pairs = []
+    for _ in range(40 if ctx.thorough else 8):
+        pc = rand_proc(ctx.rng, ctx.rng.choice(HANDLES), True)
+        pp = dict(pc, central=False)
+        pc["at"], pp["at"] = 3, 1
+        role_pairs.append(({"kind": "sequential", "handles": HANDLES, "events": proc_events(pc), "procs": [pc]},
+                           {"kind": "sequential", "handles": HANDLES, "events": proc_events(pp), "procs": [pp]}))
+    n_plain_stack = len(stack_cases)
+    for a, b in role_pairs:
+        stack_cases += [a, b]
 
     # ---- implementation -------------------------------------------------------
     r1 = C.run_impl("C13.py", {"mgr": [{"ltk": c["ltk"], "mat": c["mat"], "ops": c["ops"]} for c in mgr_cases],
                                "sweep": sweeps, "pair": [{k: p[k] for k in p if k != "what"} for p in pairs],
-                               "link": links, "capture": captures})
+                               "link": links, "capture": captures,
+                               "stack": [{"handles": c["handles"], "events": c["events"],
+                                          "procs": [{k: p[k] for k in ("key", "skdm", "ivm", "skds", "ivs")} for p in c["procs"]]}
+                                         for c in stack_cases]})
     ctx.log("impl: %d manager cases, %d sweeps, %d pairs, %d links, %d captures" % (len(mgr_cases), len(sweeps), len(pairs), len(links), len(captures)))
     dec_raw = corpus_dec + gen_dec_raw(ctx, [(c, r["air"]) for c, r in zip(captures, r1["capture"]) if "air" in r])
     for c in dec_raw:
@@ -570,6 +714,10 @@ def run(ctx):
         nviol += judge_capture(ctx, c, res)
     for c, res in zip(dec_raw, r2["dec"]):
         nviol += judge_dec_raw(ctx, c, res)
+    for c, res in zip(stack_cases, r1["stack"]):
+        nviol += judge_stack(ctx, c, res)
+    rs = r1["stack"][n_plain_stack:]
+    nviol += judge_roles(ctx, role_pairs, list(zip(rs[0::2], rs[1::2])))
     ctx.log("oracle: %d failing cases (%d replay files, %d more not written); %d single-bit corruptions swept on the implementation"
             % (nviol, len(ctx.violations), ctx.suppressed, nbits))
 
@@ -589,8 +737,13 @@ def run(ctx):
                  [(c["keys"], c["mats"], c["pdus"], r) for c, r in zip(dec_raw, r2["dec"]) if "obs" in r]
     dec_terms = [dec_term(k, m, p, r) for k, m, p, r in dec_inputs]
     bad_d, logs_d = C.run_cases(PID, "dec", pre, "dec_case", dec_terms, "check_dec", shard=max(1, len(dec_terms) // 16 + 1))
-    ctx.notes += logs_m[:3] + logs_d[:3]
-    ctx.log("correspondence: manager %d cases %d bad; decryptor %d cases %d bad" % (len(mgr_terms), len(bad_m), len(dec_terms), len(bad_d)))
+    st_idx = [i for i, r in enumerate(r1["stack"]) if "out" in r]
+    st_terms = [stack_term(stack_cases[i], r1["stack"][i]) for i in st_idx]
+    bad_st, logs_st = C.run_cases(PID, "stack", pre, "stack_case", st_terms, "check_stack", shard=max(1, len(st_terms) // 8 + 1))
+    bad_st = [st_idx[i] for i in bad_st]
+    ctx.notes += logs_m[:3] + logs_d[:3] + logs_st[:2]
+    ctx.log("correspondence: manager %d cases %d bad; decryptor %d cases %d bad; stack %d cases %d bad"
+            % (len(mgr_terms), len(bad_m), len(dec_terms), len(bad_d), len(st_terms), len(bad_st)))
 
     # ---- coverage ---------------------------------------------------------------
     nops = sum(len(c["ops"]) for c in mgr_cases)
@@ -607,10 +760,18 @@ def run(ctx):
                 retry_success += 1
             prev = (r["mc"], r["sc"])
     lens = sorted({len(o[2]) // 2 - 2 for c in mgr_cases for o in c["ops"] if o[0] == "enc" and len(o[2]) >= 4})
-    ctx.cov["evaluations"] = nops + nbits + len(pairs) + sum(len(l["events"]) for l in links) + sum(len(p) for _k, _m, p, _r in dec_inputs)
-    ctx.cov["traces_validated_against_impl"] = len(mgr_terms) + len(dec_terms)
+    stack_kinds = {}
+    for c in stack_cases:
+        stack_kinds[c["kind"]] = stack_kinds.get(c["kind"], 0) + 1
+    stack_outs = {}
+    for r in r1["stack"]:
+        for o in r.get("out", []):
+            stack_outs[o["k"]] = stack_outs.get(o["k"], 0) + 1
+    ctx.cov["evaluations"] = sum(len(c["events"]) for c in stack_cases) + nops + nbits + len(pairs) + sum(len(l["events"]) for l in links) + sum(len(p) for _k, _m, p, _r in dec_inputs)
+    ctx.cov["traces_validated_against_impl"] = len(mgr_terms) + len(dec_terms) + len(st_terms)
     ctx.cov["distinct_nontrivial"] = C.distinct_count([[c["ltk"], c["mat"], c["ops"]] for c in mgr_cases if len(c["ops"]) >= 2]
-                                                      + [[k, m, p] for k, m, p, _r in dec_inputs if p])
+                                                      + [[k, m, p] for k, m, p, _r in dec_inputs if p]
+                                                      + [[c["handles"], c["events"]] for c in stack_cases if c["procs"]])
     ctx.cov["rule"] = ("manager cases = operation sequences (set counters / encrypt / decrypt the last output intact or with one bit flipped / garbage) "
                        "on the real LinkLayerCryptoManager, compared op by op with the model in Coq; decryptor cases = PDU streams from a reference "
                        "encryptor written from the specification, with sniffer losses, corrupted copies, wrong keys first. Non-trivial = at least one "
@@ -624,6 +785,9 @@ def run(ctx):
         "links": len(links), "link_events": sum(len(l["events"]) for l in links),
         "captures": len(captures), "captured_pdus": sum(len(r.get("air", [])) for r in r1["capture"]),
         "decryptor_raw_streams": len(dec_raw),
+        "stack_cases": len(stack_cases), "stack_case_kinds": stack_kinds, "stack_procedures": sum(len(c["procs"]) for c in stack_cases),
+        "stack_same_handle_repeated": sum(1 for c in stack_cases if len(c["procs"]) > 1 and len({p["h"] for p in c["procs"]}) < len(c["procs"])),
+        "stack_event_outcomes": stack_outs, "stack_role_pairs": len(role_pairs),
         "uncovered_branches": ["24/32-byte LTK (AES-192/256 through e()) is outside the model",
                                "decryptor: BTLE_DATA absent from the packet (input is always a data PDU)"],
     }
@@ -633,22 +797,27 @@ def run(ctx):
         {"capture": captures[0].get("kind"), "air": r1["capture"][0].get("air", [])[:2], "decryptor": r1["capture"][0].get("obs", [])[:2]},
     ]
     ctx.cov["source_ties"] = [C.source_tie("whad/ble/crypto.py", 198, 310), C.source_tie("whad/ble/crypto.py", 390, 480),
-                              C.source_tie("whad/ble/crypto.py", 31, 38), C.source_tie("whad/ble/stack/llm/__init__.py", 796, 830)]
-    ctx.cov["correspondence"] = {"manager_cases": len(mgr_terms), "manager_bad": len(bad_m), "decryptor_cases": len(dec_terms), "decryptor_bad": len(bad_d)}
+                              C.source_tie("whad/ble/crypto.py", 31, 38), C.source_tie("whad/ble/stack/llm/__init__.py", 656, 930),
+                              C.source_tie("whad/ble/stack/llm/__init__.py", 231, 345), C.source_tie("whad/ble/stack/llm/__init__.py", 511, 526)]
+    ctx.cov["correspondence"] = {"manager_cases": len(mgr_terms), "manager_bad": len(bad_m), "decryptor_cases": len(dec_terms), "decryptor_bad": len(bad_d),
+                                 "stack_cases": len(st_terms), "stack_bad": len(bad_st)}
 
     # ---- verdict -------------------------------------------------------------------
-    if bad_m or bad_d or not proofs_ok:
+    if bad_m or bad_d or bad_st or not proofs_ok:
         if not ctx.violations:
             first = None
-            if bad_m:
+            if bad_st:
+                i = bad_st[0]
+                first = {"op": "stack", "handles": stack_cases[i]["handles"], "events": stack_cases[i]["events"], "procs": stack_cases[i]["procs"], "impl": r1["stack"][i]}
+            elif bad_m:
                 i = bad_m[0]
                 first = {"op": "mgr", "ltk": mgr_cases[i]["ltk"], "mat": mgr_cases[i]["mat"], "ops": mgr_cases[i]["ops"], "impl": r1["mgr"][i]}
             elif bad_d:
                 k, m, p, r = dec_inputs[bad_d[0]]
                 first = {"op": "dec", "keys": k, "mats": m, "pdus": p, "impl": r}
-            what = ("correspondence C13.Model vs LinkLayerCryptoManager/LinkLayerDecryptor (%d manager, %d decryptor disagreements)" % (len(bad_m), len(bad_d))
-                    if (bad_m or bad_d) else "proof obligations of theories/C13: " + detail.splitlines()[0][:200])
-            ctx.broken_obligation(what, detail if not proofs_ok else "\n".join(logs_m + logs_d), first)
+            what = ("correspondence C13.Model vs LinkLayerCryptoManager/LinkLayerDecryptor/LinkLayer (%d manager, %d decryptor, %d stack disagreements)" % (len(bad_m), len(bad_d), len(bad_st))
+                    if (bad_m or bad_d or bad_st) else "proof obligations of theories/C13: " + detail.splitlines()[0][:200])
+            ctx.broken_obligation(what, detail if not proofs_ok else "\n".join(logs_m + logs_d + logs_st), first)
 
 
 def replay(payload):
@@ -672,6 +841,10 @@ def replay(payload):
     elif op == "capture":
         r = C.run_impl("C13.py", {"capture": [{k: case[k] for k in ("ltk", "mat", "keys", "events")}]})
         print("implementation now returns:", json.dumps(r["capture"][0])[:3000])
+    elif op == "stack":
+        r = C.run_impl("C13.py", {"stack": [{"handles": case["handles"], "events": case["events"],
+                                             "procs": [{k: p[k] for k in ("key", "skdm", "ivm", "skds", "ivs")} for p in case.get("procs", [])]}]})
+        print("implementation now hands to the PHY:", json.dumps(r["stack"][0])[:3000])
     elif op == "dec":
         r = C.run_impl("C13.py", {"dec": [{k: case[k] for k in ("keys", "mats", "pdus")}]})
         print("implementation now returns:", json.dumps(r["dec"][0])[:3000])
